@@ -128,8 +128,8 @@ def run_ext(ctx):
     # 2. non-vacuity: every named deviation is refuted by the abstract level
     _bugs_parallel(ctx, BUGS_QUICK + ([] if q else BUGS_THOROUGH), timeout=900, par=6)
     # 3. schedules: goal-directed random walks of the two models
-    rec = _schedules(ctx, "DBFTRecSim.tla", "Sim_Rec_goals.cfg", 1200 if q else 12000, 80, 1 if q else 8, ctx.seed + 300, prefer=("R3", "R4"))
-    chain = _schedules(ctx, "DBFTChainSim.tla", "Sim_Chain_goals.cfg", 1500 if q else 15000, 120, 2 if q else 8, ctx.seed + 400, prefer=("C1", "C3"))
+    rec = _schedules(ctx, "DBFTRecSim.tla", "Sim_Rec_goals.cfg", 1200 if q else 12000, 80, 1 if q else 5, ctx.seed + 300, prefer=("R3", "R4"))
+    chain = _schedules(ctx, "DBFTChainSim.tla", "Sim_Chain_goals.cfg", 1500 if q else 15000, 120, 2 if q else 5, ctx.seed + 400, prefer=("C1", "C3"))
     if not rec or not chain:
         raise vlib.Inconclusive("%s: no schedules generated (rec %d, chain %d)" % (PART, len(rec), len(chain)))
     ind = os.path.join(ctx.work, "in-c19rec")
@@ -138,7 +138,7 @@ def run_ext(ctx):
     json.dump(chain, open(os.path.join(ind, "chain_schedules.json"), "w"))
     ctx.extra["recovery_schedules"] = {"rec": len(rec), "chain": len(chain)}
     # 4. the real services
-    res = ctx.go_driver("c19dbft", "TestRecDriver", env={"VERIF_IN": ind, "VERIF_EXTRA": 24 if q else 60, "VERIF_PICKS": 1 if q else 4,
+    res = ctx.go_driver("c19dbft", "TestRecDriver", env={"VERIF_IN": ind, "VERIF_EXTRA": 24 if q else 60, "VERIF_PICKS": 1 if q else 2,
                                                          "VERIF_STARVE_EVERY": 2 if q else 1}, timeout=3400)
     ctx.absorb(res)
     trace = os.path.join(res["_out"], "trace.ndjson")
@@ -151,11 +151,6 @@ def run_ext(ctx):
         kinds[k] = kinds.get(k, 0) + 1
     ctx.extra["recovery_event_kinds"] = kinds
     ctx.extra["recovery_trace_events"] = len(events)
-    for need in ("recwin_close", "cache_replayed", "cache_probe", "queued_at"):
-        if not kinds.get(need):
-            raise vlib.Inconclusive("%s: the driver produced no %s event (scenario did not run)" % (PART, need))
-    if not any(e["event"] == "recovery_sent" and e["wire"]["commits"] for e in events):
-        raise vlib.Inconclusive("%s: no RecoveryMessage with commits was observed" % PART)
     # 5. TLC judges the trace: the recovery / chain predicates, and Progress with the registered check's own scoping
     fails = ctx.trace_judge("dbftrec", "DBFTRecTrace.tla", "Trace_Rec.cfg", trace, timeout=2400)
     fails2 = ctx.trace_judge("dbft", "DBFTTrace.tla", "Trace_DBFT.cfg", trace, timeout=2400)
@@ -181,6 +176,12 @@ def run_ext(ctx):
                                 "event": ev if ev.get("event") != "recovery_sent" else {k: ev[k] for k in ("id", "node", "vi", "h", "view")},
                                 "ctx": f.get("ctx"), "line": f["line"], "variant": info.get("variant")})
     if not fails and not fails2:
+        # vacuity guard (only when nothing was reported: a tree on which the scenarios cannot even be set up is judged by what it did)
+        for need in ("recwin_close", "cache_replayed", "cache_probe", "queued_at"):
+            if not kinds.get(need):
+                raise vlib.Inconclusive("%s: the driver produced no %s event (scenario did not run)" % (PART, need))
+        if not any(e["event"] == "recovery_sent" and e["wire"]["commits"] for e in events):
+            raise vlib.Inconclusive("%s: no RecoveryMessage with commits was observed" % PART)
         selftest(ctx, events)
     ctx.assumptions.append("c19_recovery: exhaustive runs are bounded: N=4; DBFTRec views 0..1, at most 1 (thorough: 2) RecoveryMessages on the network per behaviour (further ones are lost at the sender: loss is part of the network model), RecoveryRequests by one (two) designated validators, the choice RecoveryRequest / ChangeView on a timeout and the set-aside of preparations while changing view over-approximated; runs 'v1' start in a view-1 state whose reachability TLC checks separately; DBFTChain views 0 only, 2-3 heights, no recovery traffic")
     ctx.assumptions.append("c19_recovery: RecoveryAdequate is judged only inside the synchronous recovery windows the driver opens (nobody silent, everything sent from the window's start delivered, the requester had heard nothing of the height); a requester locked by a Commit of a lower view is exempt (dBFT 2.0 dead end); preparations count only from RecoveryMessages delivered while the requester was not asking to leave that view")
